@@ -16,6 +16,7 @@ import time
 
 import pv
 import diffrun
+import props.c11api as A
 
 ALGS = {"sha3-224": 144, "sha3-256": 136, "sha3-384": 104, "sha3-512": 72, "gost": 32}
 HASHLEN = {"sha3-224": 28, "sha3-256": 32, "sha3-384": 48, "sha3-512": 64, "gost": 32}
@@ -141,55 +142,34 @@ def oracle(alg, data):
     return None
 
 
+class _Acc:
+    """accumulating oracle object behind the interface of props/c11api.py (hashlib has no GOST; the reference needs the
+    whole message); beyond EXPECT_LIMIT bytes there is no expectation"""
+    def __init__(self, alg):
+        self.alg, self.msg, self.digest_size = alg, bytearray(), HASHLEN[alg]
+
+    def absorb(self, b):
+        if self.msg is not None:
+            self.msg += b
+
+    def absorbz(self, n):
+        if self.msg is not None:
+            if len(self.msg) + n > EXPECT_LIMIT:
+                self.msg = None
+            else:
+                self.msg += bytes(n)
+
+    def hexdigest(self):
+        return oracle(self.alg, self.msg) if self.msg is not None else None
+
+
 def expected(ops):
     """what the op file must answer, line by line, according to the documented dispatcher behaviour and
     the oracle: digest of the bytes updated since `new`/`reset` before the first read; reads repeatable;
-    updates after a read ignored; a too small `dig` buffer answers `0 ` and is not a read.
-    None where this module has no expectation (other algorithms, messages beyond the oracle's reach)."""
-    out = []
-    alg, msg, closed, dig = None, None, False, None
-    for op in ops:
-        t = op.split()[:2]
-        if not t:
-            continue
-        if t[0] == "new" and len(t) == 2:
-            alg = t[1] if t[1] in ALGS else None
-            msg, closed, dig = bytearray(), False, None
-            out.append("ok" if alg else None)
-        elif alg is None:
-            out.append(None)
-        elif t[0] == "upd" and len(t) == 2:
-            if not closed and msg is not None:
-                msg += b"" if t[1] == "-" else bytes.fromhex(t[1])
-            out.append("ok")
-        elif t[0] == "updz" and len(t) == 2:
-            n = int(t[1])
-            if not closed and msg is not None:
-                if len(msg) + n > EXPECT_LIMIT:
-                    msg = None
-                else:
-                    msg += bytes(n)
-            out.append("ok")
-        elif t[0] == "str" and len(t) == 1:
-            if not closed:
-                closed, dig = True, (oracle(alg, msg) if msg is not None else None)
-            out.append(dig)
-        elif t[0] == "dig":
-            cap = int(t[1]) if len(t) == 2 else 64
-            if HASHLEN[alg] > cap:
-                out.append("0 ")
-            else:
-                if not closed:
-                    closed, dig = True, (oracle(alg, msg) if msg is not None else None)
-                out.append(None if dig is None else "%d %s" % (HASHLEN[alg], dig))
-        elif t[0] == "len" and len(t) == 1:
-            out.append(str(HASHLEN[alg]))
-        elif t[0] == "reset" and len(t) == 1:
-            msg, closed, dig = bytearray(), False, None
-            out.append("ok")
-        else:
-            out.append("bad-op")
-    return out
+    updates after a read ignored; a too small `dig` buffer answers `0 ` and is not a read; the other entry
+    points as in props/c11api.py.  None where this module has no expectation (other algorithms, messages
+    beyond the oracle's reach)."""
+    return A.expected(ops, lambda alg: _Acc(alg) if alg in ALGS else None)
 
 
 # ---------------------------------------------------------------------------------------------
@@ -314,6 +294,9 @@ def cases(rng, chk, thorough):
             n = rng.randrange(3 * B + 2, 200_000)
             chk.bump("long")
             yield _msg_case(rng, chk, alg, n, tail=False)
+    api_algs = [(a, B, HASHLEN[a]) for a, B in ALGS.items()]
+    for c in A.cases(rng, chk, api_algs, thorough, exh_algs=[x for x in api_algs if x[0] in ("sha3-256", "gost")]):
+        yield c
     # 1 000 000 x 'a' (published GOST vector), in one update and in 1000 updates
     yield ["new gost", "upd " + "61" * 1_000_000, "str"]
     if thorough:
@@ -366,24 +349,31 @@ def oracle_pass(chk, exe, case_list, label="C11x"):
     on a concrete input, whatever model and spec say"""
     n_checked = 0
     for batch in diffrun.batches(case_list, 60):
-        joined, exp = [], []
+        joined = []
         for c in batch:
             joined += list(c) + ["reset"]
-            exp += expected(list(c)) + [None]
+        exp = expected(joined)          # over the joined run: handle slots and the selected slot carry over between cases
         rc, out, err = pv.run_proc([exe], "".join(o + "\n" for o in joined), 300)
         lines = out.splitlines()
         if rc == 0 and len(lines) == len(joined) and all(e is None or e == l for e, l in zip(exp, lines)):
             n_checked += sum(1 for e in exp if e is not None)
             continue
+        hit = False
         for c in batch:                                            # find the case
             c = list(c)
             d = _first_oracle_diff(exe, c)
+            for _ in range(6 if any(o.startswith("par ") for o in c) else 0):      # threads: a race may need several runs
+                d = d or _first_oracle_diff(exe, c)
             if d is None:
                 continue
+            hit = True
             i, ei, li = d
-            start = max([j for j in range(i + 1) if c[j].startswith("new ")] or [0])
+            # several handle slots in play: the objects created earlier matter, keep the whole prefix
+            start = 0 if any(o.startswith("use ") for o in c[: i + 1]) else max([j for j in range(i + 1) if c[j].startswith("new")] or [0])
             small = _shrink_oracle(exe, c[start: i + 1])
-            d2 = _first_oracle_diff(exe, small) or (len(small) - 1, ei, li)
+            d2 = _first_oracle_diff(exe, small)
+            if d2 is None:                                          # never report a replay that does not fail by itself
+                small, d2 = c[: i + 1], (i, ei, li)
             note = ""
             if d2[2] == GOST_CARRY_WRONG:
                 note = " (the 256-bit checksum lost a carry: historical `a[i] < old || a[i] < b[i]` in sum_256; reference digest " + GOST_CARRY_DIGEST + ")"
@@ -391,6 +381,17 @@ def oracle_pass(chk, exe, case_list, label="C11x"):
                 label, small[d2[0]] if d2[0] < len(small) else "?", d2[2], d2[1], note), signature=signature_of(small, None))
             if len(chk.violations) >= 3:
                 return n_checked
+        if not hit:
+            # wrong only when the cases follow each other in one process (state surviving free / new / reset)
+            cs = [list(c) for c in batch]
+            flat = lambda cc: [o for c in cc for o in c + ["reset"]]
+            while len(cs) > 1 and _first_oracle_diff(exe, flat(cs[1:])) is not None:
+                cs = cs[1:]
+            while len(cs) > 1 and _first_oracle_diff(exe, flat(cs[:-1])) is not None:
+                cs = cs[:-1]
+            d = _first_oracle_diff(exe, flat(cs))
+            chk.violation("\n".join(flat(cs)) + "\n", "%s oracle (only when the cases run one after the other in one process): %s" % (
+                label, "line %d answered %r, the independent reference says %r" % (d[0], d[2], d[1]) if d else "rc=%s %s" % (rc, err[-300:])))
     return n_checked
 
 
